@@ -159,7 +159,7 @@ func c03r2(r *R) {
 					call := e.(*ssa.Call)
 					lg := c.guardStrs(call.Block())
 					o.Check(hasGuardContaining(lg, "+", " < (*http2.SettingsFrame).NumSettings(assert[*http2.SettingsFrame](p1)#0))"), "settings loop is not bounded by NumSettings(); guards %v", lg)
-					o.Check(strings.Contains(fields["Id"], "phi((1 + phi@)|0)"), "settings loop index is %s, want 0,1,2,… (wire order, none skipped)", fields["Id"])
+					o.Check(strings.Contains(fields["Id"], "(1 + phi((1 + phi@)|-1))"), "settings loop index is %s, want 0,1,2,… (wire order, none skipped)", fields["Id"])
 				}
 			}
 			o.Check(okShape, "Settings is not built by appending one {Id, Val} per frame setting")
@@ -503,22 +503,23 @@ func c03r6(r *R) {
 		if a.Kind != "write" {
 			continue
 		}
-		n++
 		st := a.Instr.(*ssa.Store)
-		gs := c.guardStrs(st.Block())
-		e := c.Expr(st.Val)
 		o.AtI(st)
-		switch {
-		case hasGuard(gs, "+(fingerproxy.flagMaxHTTP2PriorityFrames == nil)"):
-			o.Check(e == "18446744073709551615" || e == "4294967295", "without CLI flags the limit is %s, want math.MaxUint (unlimited)", e)
-		case hasGuard(gs, "-(fingerproxy.flagMaxHTTP2PriorityFrames == nil)"):
-			o.Check(e == "fingerproxy.flagMaxHTTP2PriorityFrames", "with CLI flags the limit is %s, want *flagMaxHTTP2PriorityFrames", e)
-		default:
-			o.Fail("MaxPriorityFrames is set to %s under %v", e, gs)
+		for _, vc := range c.valueCases(st.Val, st.Block()) {
+			n++
+			gs, e := vc.Guards, vc.E
+			switch {
+			case hasGuard(gs, "+(fingerproxy.flagMaxHTTP2PriorityFrames == nil)"):
+				o.Check(e == "18446744073709551615" || e == "4294967295", "without CLI flags the limit is %s, want math.MaxUint (unlimited)", e)
+			case hasGuard(gs, "-(fingerproxy.flagMaxHTTP2PriorityFrames == nil)"):
+				o.Check(e == "fingerproxy.flagMaxHTTP2PriorityFrames", "with CLI flags the limit is %s, want *flagMaxHTTP2PriorityFrames", e)
+			default:
+				o.Fail("MaxPriorityFrames is set to %s under %v", e, gs)
+			}
 		}
 		o.Check(a.Fn == di, "MaxPriorityFrames is written in %s", funcName(a.Fn))
 	}
-	o.Check(n == 2, "expected two stores to MaxPriorityFrames (flags initialised / not), found %d", n)
+	o.Check(n == 2, "expected two cases for MaxPriorityFrames (flags initialised / not), found %d", n)
 	initFlags := c.Func("", "initFlags")
 	if o.Check(initFlags != nil, "initFlags not found") {
 		o.Check(flagRegisteredAs(c, initFlags, "flagMaxHTTP2PriorityFrames") == "max-h2-priority-frames", "flagMaxHTTP2PriorityFrames registered as %q", flagRegisteredAs(c, initFlags, "flagMaxHTTP2PriorityFrames"))
